@@ -194,3 +194,9 @@ PROPS["C20"] = {
     "level_note": "Sampling of histories; enumeration of the pure sub-claims (complete over codes in the thorough tier).",
     "technique": "deterministic simulation of restart histories with a reference model; plain enumeration for the pure sub-claims",
 }
+
+# properties whose worlds run a quarter of their workers against a copy of hc instrumented with
+# yield points (finer interleavings, see sim/instrument)
+for _p in ["C01", "C02", "C03", "C04", "C08", "C09", "C10", "C11", "C12", "C13"]:
+    PROPS[_p]["fine"] = True
+    PROPS[_p]["assumptions"] = PROPS[_p]["assumptions"] + ["a quarter of the workers run against a copy of hc with go/ast-inserted yield points before the statements of hc's functions (not inside loops, not in functions that take a lock themselves), a per-run subset of which are park points"]
